@@ -98,7 +98,7 @@ func regCmd(args []string) error {
 		if strings.HasPrefix(strings.TrimSpace(sc.Stack), "http") && strings.Count(sc.Stack, "http") == 1 {
 			rawURL = env.serverURL
 		}
-		w := &world{serverURL: srvURL, rawURL: rawURL, blobTypes: strings.Count(sc.Stack, "http") == 0, cat: cat, top: top, writers: map[string]BlobWriterT{}, ids: map[string]string{}, out: enc, rec: rec, quiesce: env.quiesce, setOp: env.curOp.Store, resetConns: env.resetConns}
+		w := &world{rewalk: true, serverURL: srvURL, rawURL: rawURL, blobTypes: strings.Count(sc.Stack, "http") == 0, cat: cat, top: top, writers: map[string]BlobWriterT{}, ids: map[string]string{}, out: enc, rec: rec, quiesce: env.quiesce, setOp: env.curOp.Store, resetConns: env.resetConns}
 		if *snap {
 			for _, m := range env.mems {
 				w.snapAll = append(w.snapAll, m)
